@@ -989,6 +989,15 @@ func (e *Env) call(x *ast.CallExpr) *Val {
 		h := fx.heapGet(e.st, name, cs)
 		n := fx.u.uf("bytes2str", "(declare-fun bytes2str ((Array Int Int) Int Int) "+fx.u.strSort()+")")
 		return &Val{T: "(" + n + " (select " + h + " (sl_arr " + v.T + ")) (sl_off " + v.T + ") (sl_len " + v.T + "))", Ty: strT}
+	case "sllen":
+		// sllen(g): length of a slice-sorted ghost value
+		return &Val{T: "(sl_len " + argv(0).T + ")", Ty: intT}
+	case "slbyte":
+		// slbyte(g, i): i-th byte of a []byte-sorted ghost value, read from the current heap
+		v, i := argv(0), argv(1)
+		name, cs := elemComp(fx.u, types.Typ[types.Byte])
+		h := fx.heapGet(e.st, name, cs)
+		return &Val{T: "(select (select " + h + " (sl_arr " + v.T + ")) (+ (sl_off " + v.T + ") " + i.T + "))", Ty: types.Typ[types.Byte]}
 	case "mark":
 		// mark(t): no logical content (the trigger predicates are true everywhere in the intended
 		// interpretation); on the assumed side it makes the index term t an instantiation point
@@ -1236,8 +1245,12 @@ func (e *Env) call(x *ast.CallExpr) *Val {
 					if res.Len() == 1 {
 						rt = res.At(0).Type()
 					}
+					sym := "pf$" + sanitize(name)
+					if lc := fx.eng.specs.Contracts["lib:"+name]; lc != nil && lc.Pure {
+						sym = "pc$" + sanitize(name) // the symbol the code gets through the pure library contract
+					}
 					fx.pureInline = true
-					v := fx.pureCall(e.st, "pf$"+sanitize(name), args, rt)
+					v := fx.pureCall(e.st, sym, args, rt)
 					fx.pureInline = false
 					return v
 				}
@@ -1361,7 +1374,7 @@ func (fx *FuncCtx) unchangedTerm(now, pre *State, except ...string) string {
 	}
 	sort.Strings(names)
 	for _, c := range names {
-		if strings.HasPrefix(c, "G$rd_pos") || strings.HasPrefix(c, "G$it_") || strings.HasPrefix(c, "G$put_") || strings.HasPrefix(c, "G$get_") || strings.HasPrefix(c, "RV$") {
+		if strings.HasPrefix(c, "G$rd_pos") || strings.HasPrefix(c, "G$it_") || strings.HasPrefix(c, "G$put_") || strings.HasPrefix(c, "G$get_") || strings.HasPrefix(c, "G$br_src") || strings.HasPrefix(c, "RV$") {
 			continue // stream cursors, iterators, the ghost call log and iteration bookkeeping are not stored state
 		}
 		t := now.Heap[c]
